@@ -278,7 +278,7 @@ def checkEnumField (objName : String) (f : Field) : M Field :=
   | _ => pure f
 
 def enumValuesChecked (d : Device) : M Device := do
-  let os ← mapObjects pure (fun o => match o with
+  let os ← mapObjects (fun h => .ok h) (fun o => match o with
     | .register r => do pure (.register { r with fields := ← r.fields.mapM (checkEnumField r.name) })
     | .command c => do
       let i ← c.inFields.mapM (checkEnumField c.name)
@@ -289,25 +289,31 @@ def enumValuesChecked (d : Device) : M Device := do
 
 /-! ### 5. byte_order_specified -/
 
-def byteOrderSpecified (d : Device) : M Device := do
-  let os ← match d.config.defaultByteOrder with
-    | some bo => mapObjects pure (fun o => pure (match o with
-        | .register r => if r.byteOrder.isNone then .register { r with byteOrder := some bo } else o
-        | .command c => if c.byteOrder.isNone then .command { c with byteOrder := some bo } else o
-        | other => other)) d.objects
-    | none => mapObjects pure (fun o => match o with
-        | .register r =>
-          if r.byteOrder.isNone then
-            if r.sizeBits > 8 then throw (passErr "no_byte_order_register" [r.name])
-            else pure (.register { r with byteOrder := some .le })
-          else pure o
-        | .command c =>
-          if c.byteOrder.isNone then
-            if c.sizeBitsIn > 8 || c.sizeBitsOut > 8 then throw (passErr "no_byte_order_command" [c.name])
-            else pure (.command { c with byteOrder := some .le })
-          else pure o
-        | other => pure other) d.objects
-  pure { d with objects := os }
+def byteOrderObj (dflt : Option ByteOrder) (o : Object) : M Object :=
+  match dflt with
+  | some bo =>
+    match o with
+    | .register r => if r.byteOrder.isNone then .ok (.register { r with byteOrder := some bo }) else .ok o
+    | .command c => if c.byteOrder.isNone then .ok (.command { c with byteOrder := some bo }) else .ok o
+    | other => .ok other
+  | none =>
+    match o with
+    | .register r =>
+      if r.byteOrder.isNone then
+        if r.sizeBits > 8 then .error (passErr "no_byte_order_register" [r.name])
+        else .ok (.register { r with byteOrder := some .le })
+      else .ok o
+    | .command c =>
+      if c.byteOrder.isNone then
+        if c.sizeBitsIn > 8 || c.sizeBitsOut > 8 then .error (passErr "no_byte_order_command" [c.name])
+        else .ok (.command { c with byteOrder := some .le })
+      else .ok o
+    | other => .ok other
+
+def byteOrderSpecified (d : Device) : M Device :=
+  match mapObjects (fun h => .ok h) (byteOrderObj d.config.defaultByteOrder) d.objects with
+  | .error e => .error e
+  | .ok os => .ok { d with objects := os }
 
 /-! ### 6. reset_values_converted -/
 
@@ -359,7 +365,7 @@ def targetByteOrder (r : Register) (cfg : GlobalConfig) : M ByteOrder :=
     | none => if r.sizeBits ≤ 8 then pure .le else throw (.panic "byte_order_expect")
 
 def resetValuesConverted (d : Device) : M Device := do
-  let os ← mapObjects pure (fun o => match o with
+  let os ← mapObjects (fun h => .ok h) (fun o => match o with
     | .register r => match r.reset with
       | some rv => do
         let bo ← targetByteOrder r d.config
@@ -384,53 +390,85 @@ def resetValuesConverted (d : Device) : M Device := do
 /-! ### 7. bool_fields_checked -/
 
 def checkBoolField (objName : String) (f : Field) : M Field :=
-  if f.base == .bool then do
+  if f.base == .bool then
     let f1 := if f.start = f.stop then { f with stop := f.stop + 1 } else f
-    if f1.width ≠ 1 then throw (passErr "bool_too_wide" [objName, f.name])
-    if f1.conv.isSome then throw (passErr "bool_conversion" [objName, f.name])
-    pure f1
-  else pure f
+    if f1.width ≠ 1 then .error (passErr "bool_too_wide" [objName, f.name])
+    else if f1.conv.isSome then .error (passErr "bool_conversion" [objName, f.name])
+    else .ok f1
+  else .ok f
 
-def boolFieldsChecked (d : Device) : M Device := do
-  let os ← mapObjects pure (fun o => match o with
-    | .register r => do pure (.register { r with fields := ← r.fields.mapM (checkBoolField r.name) })
-    | .command c => do
-      let i ← c.inFields.mapM (checkBoolField c.name)
-      let o ← c.outFields.mapM (checkBoolField c.name)
-      pure (.command { c with inFields := i, outFields := o })
-    | other => pure other) d.objects
-  pure { d with objects := os }
+def checkBoolFields (objName : String) : List Field → M (List Field)
+  | [] => .ok []
+  | f :: fs =>
+    match checkBoolField objName f with
+    | .error e => .error e
+    | .ok f' =>
+      match checkBoolFields objName fs with
+      | .error e => .error e
+      | .ok fs' => .ok (f' :: fs')
+
+def boolObj (o : Object) : M Object :=
+  match o with
+  | .register r =>
+    match checkBoolFields r.name r.fields with
+    | .error e => .error e
+    | .ok fs => .ok (.register { r with fields := fs })
+  | .command c =>
+    match checkBoolFields c.name c.inFields with
+    | .error e => .error e
+    | .ok i =>
+      match checkBoolFields c.name c.outFields with
+      | .error e => .error e
+      | .ok o => .ok (.command { c with inFields := i, outFields := o })
+  | other => .ok other
+
+def boolFieldsChecked (d : Device) : M Device :=
+  match mapObjects (fun h => .ok h) boolObj d.objects with
+  | .error e => .error e
+  | .ok os => .ok { d with objects := os }
 
 /-! ### 8. bit_ranges_validated -/
 
-def validateLen (fields : List Field) (sizeBits : Nat) (objName : String) : M Unit :=
-  fields.forM fun f => do
-    if ¬ (f.stop ≤ sizeBits) then throw (passErr "field_exceeds_size" [objName, f.name])
-    if ¬ (f.width > 0) then throw (passErr "field_zero_bits" [objName, f.name])
+def validateLen (sizeBits : Nat) (objName : String) : List Field → M Unit
+  | [] => .ok ()
+  | f :: fs =>
+    if ¬ (f.stop ≤ sizeBits) then .error (passErr "field_exceeds_size" [objName, f.name])
+    else if ¬ (f.width > 0) then .error (passErr "field_zero_bits" [objName, f.name])
+    else validateLen sizeBits objName fs
 
 def rangesOverlap (a b : Field) : Bool := a.start < b.stop && b.start < a.stop
 
 def validateOverlap (objName : String) : List Field → M Unit
-  | [] => pure ()
-  | f :: rest => do
+  | [] => .ok ()
+  | f :: rest =>
     match rest.find? (rangesOverlap f) with
-    | some g => throw (passErr "fields_overlap" [objName, f.name, g.name])
+    | some g => .error (passErr "fields_overlap" [objName, f.name, g.name])
     | none => validateOverlap objName rest
 
-def bitRangesValidated (d : Device) : M Device := do
-  let _ ← mapObjects pure (fun o => match o with
-    | .register r => do
-      validateLen r.fields r.sizeBits r.name
-      if !r.allowBitOverlap then validateOverlap r.name r.fields
-      pure o
-    | .command c => do
-      validateLen c.inFields c.sizeBitsIn s!"{c.name} (in)"
-      if !c.allowBitOverlap then validateOverlap s!"{c.name} (in)" c.inFields
-      validateLen c.outFields c.sizeBitsOut s!"{c.name} (out)"
-      if !c.allowBitOverlap then validateOverlap s!"{c.name} (out)" c.outFields
-      pure o
-    | other => pure other) d.objects
-  pure d
+def validateSet (allowOverlap : Bool) (sizeBits : Nat) (objName : String) (fields : List Field) : M Unit :=
+  match validateLen sizeBits objName fields with
+  | .error e => .error e
+  | .ok () => if allowOverlap then .ok () else validateOverlap objName fields
+
+def bitRangesObj (o : Object) : M Object :=
+  match o with
+  | .register r =>
+    match validateSet r.allowBitOverlap r.sizeBits r.name r.fields with
+    | .error e => .error e
+    | .ok () => .ok o
+  | .command c =>
+    match validateSet c.allowBitOverlap c.sizeBitsIn s!"{c.name} (in)" c.inFields with
+    | .error e => .error e
+    | .ok () =>
+      match validateSet c.allowBitOverlap c.sizeBitsOut s!"{c.name} (out)" c.outFields with
+      | .error e => .error e
+      | .ok () => .ok o
+  | other => .ok other
+
+def bitRangesValidated (d : Device) : M Device :=
+  match mapObjects (fun h => .ok h) bitRangesObj d.objects with
+  | .error e => .error e
+  | .ok _ => .ok d
 
 /-! ### 9. refs_validated -/
 
